@@ -1,8 +1,10 @@
+\* vacuity guard: the protocol before bdbfbd6 renames over a stale <name>.bak - OthersUntouched MUST be violated
 SPECIFICATION Spec
 CONSTANTS
   NWorkers = 1
   MaxChunks = 1
   FaultTasks = 0
+  Protocol = "old"
   SetupIds = {"bak"}
 INVARIANTS NeverLost ReadOnlyUntouched OthersUntouched
 CHECK_DEADLOCK FALSE
